@@ -179,6 +179,32 @@ func RunC09(tier string) int {
 	} else {
 		run.Infra(err.Error())
 	}
+	// the key computed late in a build must not depend on what the same build keyed earlier
+	if outs, err := staticBatch(run, "TestHasherHistory", 0, tierN(tier, 60, 1500), nil); err == nil {
+		for _, o := range outs {
+			if o.Crash != "" {
+				run.Violation("hasher-history "+o.Crash, "hasher history driver died: "+firstLines(o.Detail, 6), map[string]any{"detail": o.Detail})
+				continue
+			}
+			var r struct {
+				Cases   int    `json:"cases"`
+				Bad     int    `json:"history_dependent"`
+				Example string `json:"example"`
+			}
+			if json.Unmarshal(o.Res, &r) != nil {
+				continue
+			}
+			run.Eval(r.Cases)
+			run.Count("keys_computed_after_earlier_keys_and_file_rewrites", r.Cases)
+			if r.Bad > 0 {
+				run.Violation("key-depends-on-what-the-build-keyed-earlier", fmt.Sprintf("%d of %d targets keyed late in a build got a key that differs from the key of the same state in a fresh build: %s", r.Bad, r.Cases, r.Example), map[string]any{"example": r.Example})
+			} else if r.Cases > 0 {
+				run.Nontrivial("hasher-history")
+			}
+		}
+	} else {
+		run.Infra(err.Error())
+	}
 	// process level: the keys the real binary writes must not depend on declaration order
 	if st, err := e1.Prepare(run, false); err == nil {
 		e1.DeclOrderPart(run, st, tierN(tier, 24, 300))
